@@ -1,1 +1,1 @@
-
+//! shared helpers of this crate's checks
